@@ -3,8 +3,11 @@ package props
 import (
 	"bytes"
 	"fmt"
+	"io"
+	"sync/atomic"
 	"testing"
 	"testing/iotest"
+	"time"
 
 	"pgregory.net/rapid"
 
@@ -54,7 +57,41 @@ func fieldKind(f *bc.File, a, b int) string {
 }
 
 // checkCuts tries the cut points of one dump. all = every cut.
+// checkCuts runs the cut loop under a watchdog: LoadProg runs in the caller's
+// goroutine, so a hang would otherwise only show as the shard running out of
+// time. No progress for 20 s on one prefix is reported as the violation it is.
 func checkCuts(dump []byte, f *bc.File, all bool, extra []int) (tried int, classes map[string]int, viol string) {
+	type res struct {
+		tried   int
+		classes map[string]int
+		viol    string
+	}
+	var cur, mode int64
+	ch := make(chan res, 1)
+	go func() {
+		t, c, v := checkCutsLoop(dump, f, all, extra, &cur, &mode)
+		ch <- res{t, c, v}
+	}()
+	last, stale := int64(-1), 0
+	for {
+		select {
+		case r := <-ch:
+			return r.tried, r.classes, r.viol
+		case <-time.After(2 * time.Second):
+			now := atomic.LoadInt64(&cur)*4 + atomic.LoadInt64(&mode)
+			if now == last {
+				stale++
+			} else {
+				last, stale = now, 0
+			}
+			if stale >= 10 {
+				return 0, map[string]int{}, fmt.Sprintf("LoadProg does not return (20 s) on the prefix of length %d of a %d-byte dump (mode %d)", atomic.LoadInt64(&cur), len(dump), atomic.LoadInt64(&mode))
+			}
+		}
+	}
+}
+
+func checkCutsLoop(dump []byte, f *bc.File, all bool, extra []int, cur, curMode *int64) (tried int, classes map[string]int, viol string) {
 	classes = map[string]int{}
 	var cuts []int
 	if all {
@@ -69,9 +106,18 @@ func checkCuts(dump []byte, f *bc.File, all bool, extra []int) (tried int, class
 				cuts = append(cuts, c)
 			}
 		}
-		for _, b := range f.Bounds {
-			for d := -12; d <= 12; d++ {
-				add(b + d)
+		// neighbourhoods of field boundaries: all of them for ordinary dumps; for
+		// dumps with thousands of fields the first and last 60 and every k-th
+		bounds := f.Bounds
+		step, width := 1, 12
+		if len(bounds) > 400 {
+			step, width = len(bounds)/150, 3
+		}
+		for i, b := range bounds {
+			if i < 40 || i >= len(bounds)-40 || i%step == 0 {
+				for d := -width; d <= width; d++ {
+					add(b + d)
+				}
 			}
 		}
 		for m := 4096; m < len(dump)+4096; m += 4096 {
@@ -84,17 +130,23 @@ func checkCuts(dump []byte, f *bc.File, all bool, extra []int) (tried int, class
 		}
 	}
 	for _, cut := range cuts {
-		for mode := 0; mode < 2; mode++ {
+		atomic.StoreInt64(cur, int64(cut))
+		for mode := 0; mode < 3; mode++ {
+			atomic.StoreInt64(curMode, int64(mode))
 			var p *bcl.Prog
 			var err error
 			var pan any
-			if mode == 0 {
+			switch mode {
+			case 0:
 				p, err, pan = loadProg(bytes.NewReader(dump[:cut]), "x")
-			} else {
+			case 1:
 				if !all && cut > 3000 {
 					continue // one byte per read is quadratic-ish for long prefixes; sampled below 3000
 				}
 				p, err, pan = loadProg(iotest.OneByteReader(bytes.NewReader(dump[:cut])), "x")
+			default:
+				// with the options a caller may pass (the tool's --bload -d)
+				p, err, pan = loadProg(bytes.NewReader(dump[:cut]), "x", bcl.OptDisasm(true), bcl.OptOutput(io.Discard), bcl.OptLogger(io.Discard))
 			}
 			_ = p
 			tried++
